@@ -20,13 +20,16 @@ LEVEL_NOTE = ("Trusts Python tuple ordering for the oracle. A location equal to 
 TECHNIQUE = "exhaustive runtime contract (icontract postcondition) over all span/loc pairs of a small grid"
 RULE = ("all Locs on 3 lines x 4 columns x 2 files; all Spans with start<=end; all ordered (span,span) "
         "and (loc,span) pairs. fingerprint = (operation, relation class of the pair); every pair is "
-        "non-trivial (each is a distinct input)")
+        "non-trivial (each is a distinct input). Plus a churn phase: 4000 pairs per shard of short-lived "
+        "spans with lines up to 100 and columns up to 120, each queried twice and dropped (stale per-object "
+        "state, identity reuse)")
 ASSUMPTIONS = ["grid 3x4x2 is representative: the implementation only uses tuple comparison of "
                "(file, line, column)"]
 FILES = ["a.py", "b.py"]
 LINES = [1, 2, 3]
 COLS = [0, 1, 2, 3]
 NSHARDS = 16
+CHURN = 4000
 
 
 def plan(tier, seed):
@@ -149,6 +152,30 @@ def run_case(ctx, rng, idx, params, tier):
         else:
             fps.add("loc:" + ("other-file" if a.file != b.file else
                               _rel(_key(a), _key(a), _key(b.start), _key(b.end))))
+    # churn phase: short-lived spans over a wider coordinate range, built, queried (twice) and dropped
+    # again, so object identities / hashes of dead spans are reused by later, unrelated ones
+    from guppylang_internals.span import Loc, Span
+
+    churn = 0
+    for n in range(CHURN):
+        f1 = rng.choice(FILES)
+        f2 = f1 if rng.random() < 0.85 else rng.choice(FILES)
+        ks = sorted((rng.choice([1, 2, 9, 10, 99, 100]), rng.choice([0, 1, 7, 8, 79, 80, 120])) for _ in range(4))
+        if rng.random() < 0.5:
+            rng.shuffle(ks)
+        a = Span(Loc(f1, *min(ks[0], ks[1])), Loc(f1, *max(ks[0], ks[1])))
+        b = Span(Loc(f2, *min(ks[2], ks[3])), Loc(f2, *max(ks[2], ks[3])))
+        r1 = a & b
+        _ = a in b
+        _ = b in a
+        _ = Loc(f1, *ks[2]) in a
+        r2 = a & b
+        if r1 != r2:
+            _state["viol"].append(("and", a, b, r2, f"same query answered {_fmt(r1)} before"))
+        churn += 1
+        if f1 == f2:
+            fps.add("churn:" + _rel(_key(a.start), _key(a.end), _key(b.start), _key(b.end)))
+        del a, b, r1, r2
     violations = []
     for op, a, b, got, exp in _state["viol"]:
         if a.file != b.file:
@@ -166,7 +193,8 @@ def run_case(ctx, rng, idx, params, tier):
     rec = {
         "status": "violated" if violations else "held",
         "fp": f"shard{idx}",
-        "counters": {"pairs_checked": pairs, "contract_evaluations": _state["evals"] - before},
+        "counters": {"pairs_checked": pairs, "churn_pairs_checked": churn,
+                     "contract_evaluations": _state["evals"] - before},
         "sets": {"relation_classes": sorted(fps)},
         "sample": {"shard": idx, "first_pair": [_fmt(work[idx][0]), _fmt(work[idx][1])]},
     }
